@@ -22,6 +22,7 @@ import (
 	"strings"
 	"sync"
 	"sync/atomic"
+	"syscall"
 	"testing"
 	"time"
 
@@ -144,6 +145,9 @@ type vc18Conn struct {
 	h      *vc18H
 	id     int
 	closes int // under h.mu
+
+	// closeErr is what the underlying Close reports, if not nil.
+	closeErr error
 }
 
 func (c *vc18Conn) Read(b []byte) (n int, err error)   { return 0, net.ErrClosed }
@@ -170,7 +174,7 @@ func (c *vc18Conn) Close() (err error) {
 		c.h.connDecs++
 	}
 
-	return nil
+	return c.closeErr
 }
 
 // vc18Ln is a fake listener whose Accept blocks until the harness delivers a
@@ -179,7 +183,11 @@ type vc18Ln struct {
 	h      *vc18H
 	idx    int
 	connCh chan net.Conn
+	failCh chan error
 	done   chan struct{}
+
+	// closeErr is what the underlying Close reports, if not nil.
+	closeErr error
 
 	// under h.mu
 	blocked int // goroutines waiting inside Accept
@@ -214,6 +222,8 @@ func (l *vc18Ln) Accept() (c net.Conn, err error) {
 	select {
 	case c = <-l.connCh:
 		return c, nil
+	case err = <-l.failCh:
+		return nil, err
 	case <-l.done:
 		return nil, net.ErrClosed
 	}
@@ -234,7 +244,7 @@ func (l *vc18Ln) Close() (err error) {
 		close(l.done)
 	}
 
-	return nil
+	return l.closeErr
 }
 
 func (l *vc18Ln) Addr() net.Addr { return vc18Addr(fmt.Sprintf("192.0.2.1:%d", 853+l.idx)) }
@@ -407,11 +417,16 @@ func vc18NewH(stop, resume int) (h *vc18H, err error) {
 
 func (h *vc18H) addListener() (idx int) {
 	idx = len(h.lns)
-	ln := &vc18Ln{h: h, idx: idx, connCh: make(chan net.Conn), done: make(chan struct{})}
+	ln := &vc18Ln{h: h, idx: idx, connCh: make(chan net.Conn), failCh: make(chan error), done: make(chan struct{})}
+	if idx%3 == 2 {
+		ln.closeErr = errors.New("vc18: underlying listener close failed")
+	}
+
 	info := &dnsserver.ServerInfo{
-		Name:  fmt.Sprintf("vc18_srv_%d", idx),
-		Addr:  ln.Addr().String(),
-		Proto: dnsserver.ProtoDoT,
+		Name: fmt.Sprintf("vc18_srv_%d", idx),
+		Addr: ln.Addr().String(),
+		// Listeners of different transports share one limiter in production.
+		Proto: []dnsserver.Protocol{dnsserver.ProtoDoT, dnsserver.ProtoDNS, dnsserver.ProtoDoH}[idx%3],
 	}
 
 	h.mu.Lock()
@@ -465,6 +480,9 @@ func (h *vc18H) startAccept(li int) {
 func (h *vc18H) deliver(li int) (fc *vc18Conn) {
 	h.mu.Lock()
 	fc = &vc18Conn{h: h, id: h.nconns}
+	if h.nconns%4 == 3 {
+		fc.closeErr = errors.New("vc18: underlying connection close failed")
+	}
 	h.nconns++
 	h.lns[li].blocked--
 	h.mu.Unlock()
@@ -472,6 +490,28 @@ func (h *vc18H) deliver(li int) (fc *vc18Conn) {
 	h.lns[li].connCh <- fc
 
 	return fc
+}
+
+// vc18ErrTransient and vc18ErrAborted are what the underlying Accept reports
+// when the harness fails a pending accept without closing the listener, the
+// way a kernel reports a connection reset while it sat in the accept queue.
+var (
+	vc18ErrTransient = errors.New("vc18: transient accept failure")
+	vc18ErrAborted   = &net.OpError{Op: "accept", Net: "tcp", Err: syscall.ECONNABORTED}
+)
+
+// failPending makes one Accept blocked in fake listener li return err.  The
+// caller guarantees that there is one.
+func (h *vc18H) failPending(li int, err error) {
+	h.mu.Lock()
+	ln := h.lns[li]
+	ln.blocked--
+	ln.errRets++
+	h.errRets++
+	h.live--
+	h.mu.Unlock()
+
+	ln.failCh <- err
 }
 
 // settle waits for quiescence and returns the state then.
@@ -605,6 +645,8 @@ const (
 	vc18OpAddLn      = "add-listener"
 	vc18OpAcceptDead = "accept-on-closed-listener"
 	vc18OpShutdown   = "shutdown"
+	vc18OpFailAccept = "fail-pending-accept"
+	vc18OpBatch      = "concurrent-batch"
 )
 
 func TestVerifC18Limiter(t *testing.T) {
@@ -613,9 +655,10 @@ func TestVerifC18Limiter(t *testing.T) {
 	}
 
 	st := vstat.New("C18", "limiter.sequences",
-		"rapid operation sequences (start-accept, deliver-conn, close-conn once/again/concurrently, close-listener once/again, add-listener, accept on a closed listener) over 1-4 fake listeners sharing one Limiter, stop in 1..6, resume in 0..stop; state compared with a hysteresis reference at state-decided quiescence after every operation; non-trivial = the counter reached stop and later fell to resume while >=2 accepts were waiting; distinct by (stop, resume, operation trace)",
+		"rapid operation sequences (start-accept, deliver-conn, close-conn once/again/concurrently, close-listener once/again, add-listener, accept on a closed listener, failure of a pending underlying Accept, 2-4 accepts/closes in flight at once) over 1-4 fake listeners of mixed transports sharing one Limiter, some underlying Close calls reporting errors, stop in 1..6, resume in 0..stop; state compared with a hysteresis reference at state-decided quiescence after every operation; non-trivial = the counter reached stop and later fell to resume while >=2 accepts were waiting; distinct by (stop, resume, operation trace)",
 		"reached-stop", "resumed-with-2+-waiters", "listener-closed-with-waiters", "listener-closed-with-pending",
-		"conn-closed-again", "conn-closed-concurrently", "waiters-on-2+-listeners", "resume<stop-1", "resume=stop", "resume=0")
+		"conn-closed-again", "conn-closed-concurrently", "waiters-on-2+-listeners", "resume<stop-1", "resume=stop", "resume=0", "stop=1",
+		"pending-accept-failed-with-waiters", "concurrent-batch", "conn-close-racing-listener-close")
 	st.Finish(t)
 
 	rapid.Check(t, func(t *rapid.T) { vc18Case(t, st) })
@@ -668,6 +711,10 @@ func vc18Case(t *rapid.T, st *vstat.Stats) {
 		classes["resume=0"] = true
 	}
 
+	if stop == 1 {
+		classes["stop=1"] = true
+	}
+
 	// check runs after every operation.  delivered is the fake connection
 	// handed out by this operation, if any.  It returns false when the case
 	// ends early behind a recorded finding.
@@ -701,6 +748,7 @@ func vc18Case(t *rapid.T, st *vstat.Stats) {
 		// Results of accepts that returned during this operation.
 		errNoEntry := 0
 		gotConn := 0
+		injectedSeen := false
 		for _, a := range fresh {
 			switch {
 			case a.err != nil:
@@ -709,7 +757,15 @@ func vc18Case(t *rapid.T, st *vstat.Stats) {
 				}
 
 				if !h.lnClosed[a.ln] {
-					fail("after %v: Accept on open listener %d failed: %v", op, a.ln, a.err)
+					if op.kind != vc18OpFailAccept || a.ln != op.arg || injectedSeen ||
+						!(errors.Is(a.err, vc18ErrTransient) || errors.Is(a.err, syscall.ECONNABORTED)) {
+						fail("after %v: Accept on open listener %d failed: %v", op, a.ln, a.err)
+					}
+
+					injectedSeen = true
+					errNoEntry++
+
+					continue
 				}
 
 				if !errors.Is(a.err, net.ErrClosed) {
@@ -728,6 +784,10 @@ func vc18Case(t *rapid.T, st *vstat.Stats) {
 
 				opens = append(opens, &vc18Open{conn: a.conn, fake: delivered, ln: a.ln})
 			}
+		}
+
+		if op.kind == vc18OpFailAccept && !injectedSeen {
+			fail("after %v: the failure of the underlying Accept was not returned by any Accept", op)
 		}
 
 		errNoEntry -= s.errRets - prev.errRets
@@ -831,11 +891,19 @@ func vc18Case(t *rapid.T, st *vstat.Stats) {
 			}
 		}
 
-		if reachedStop && !prev.acc && s.acc && openWaiters >= 2 && op.kind != vc18OpShutdown {
+		// The counter resumed in this operation if it refused before and
+		// either accepts now or has admitted somebody (and perhaps filled up
+		// again at once, now that every waiter is woken).
+		resumed := !prev.acc && (s.acc || incs > 0)
+		if reachedStop && resumed && openWaiters >= 2 && op.kind != vc18OpShutdown {
 			nonTrivial = true
 			classes["resumed-with-2+-waiters"] = true
-			if openWaiters > stop-resume {
-				classes["resumed-more-waiters-than-slots"] = true
+			if !s.acc {
+				classes["resumed-and-refilled-at-once"] = true
+			}
+
+			if s.acc && s.nParked == 0 {
+				classes["resumed-all-waiters-admitted"] = true
 			}
 
 			if op.kind == vc18OpCloseLn {
@@ -881,6 +949,7 @@ func vc18Case(t *rapid.T, st *vstat.Stats) {
 
 				if prev.blocked[li] > 0 {
 					add(4, vc18OpDeliver, li)
+					add(1, vc18OpFailAccept, li)
 				}
 
 				add(1, vc18OpCloseLn, li)
@@ -906,6 +975,8 @@ func vc18Case(t *rapid.T, st *vstat.Stats) {
 		if len(h.lns) < 4 {
 			add(1, vc18OpAddLn, 0)
 		}
+
+		add(2, vc18OpBatch, 0)
 
 		op := ops[rapid.IntRange(0, len(ops)-1).Draw(t, "op")]
 		trace = append(trace, fmt.Sprintf("%s(%d)", op.kind, op.arg))
@@ -974,6 +1045,108 @@ func vc18Case(t *rapid.T, st *vstat.Stats) {
 		case vc18OpRecloseLn:
 			classes["listener-closed-again"] = true
 			_ = h.lims[op.arg].Close()
+		case vc18OpFailAccept:
+			classes["pending-accept-failed"] = true
+			if prev.nParked > 0 {
+				classes["pending-accept-failed-with-waiters"] = true
+			}
+
+			ferr := error(vc18ErrTransient)
+			if rapid.Bool().Draw(t, "aborted") {
+				ferr = vc18ErrAborted
+			}
+
+			h.failPending(op.arg, ferr)
+		case vc18OpBatch:
+			// Two to four operations in flight at once: accepts, closes of
+			// distinct open connections, closes of distinct open listeners.
+			// The reference accepts every legal order of their effects.
+			var subs []vc18Op
+			for li := range h.lns {
+				if !h.lnClosed[li] {
+					subs = append(subs, vc18Op{vc18OpAccept, li}, vc18Op{vc18OpAccept, li}, vc18Op{vc18OpCloseLn, li})
+				}
+			}
+
+			for ci, o := range opens {
+				if !o.closed {
+					subs = append(subs, vc18Op{vc18OpCloseConn, ci}, vc18Op{vc18OpCloseConn, ci})
+				}
+			}
+
+			n := rapid.IntRange(2, 4).Draw(t, "batch")
+			var batch []vc18Op
+			closesLn, closesConn := false, false
+			for j := 0; j < n && len(subs) > 0; j++ {
+				k := rapid.IntRange(0, len(subs)-1).Draw(t, "sub")
+				sub := subs[k]
+				batch = append(batch, sub)
+				// Accepts may repeat; a connection or a listener is closed
+				// by one member of the batch only.
+				kept := subs[:0:0]
+				for _, o := range subs {
+					if sub.kind == vc18OpAccept || o != sub {
+						kept = append(kept, o)
+					}
+				}
+				subs = kept
+			}
+
+			var parts []string
+			for _, sub := range batch {
+				parts = append(parts, fmt.Sprintf("%s(%d)", sub.kind, sub.arg))
+				switch sub.kind {
+				case vc18OpCloseLn:
+					closesLn = true
+					if prev.parked[sub.arg] > 0 {
+						classes["listener-closed-with-waiters"] = true
+					}
+
+					if prev.blocked[sub.arg] > 0 {
+						classes["listener-closed-with-pending"] = true
+					}
+
+					h.lnClosed[sub.arg] = true
+				case vc18OpCloseConn:
+					closesConn = true
+					opens[sub.arg].closed = true
+				}
+			}
+
+			trace[len(trace)-1] = "concurrent{" + strings.Join(parts, ", ") + "}"
+			if len(batch) >= 2 {
+				classes["concurrent-batch"] = true
+				if closesLn && closesConn {
+					classes["conn-close-racing-listener-close"] = true
+				}
+			}
+
+			var bwg sync.WaitGroup
+			var ready atomic.Int32
+			for _, sub := range batch {
+				bwg.Add(1)
+				go func() {
+					defer bwg.Done()
+
+					ready.Add(1)
+					for spins := 0; ready.Load() < int32(len(batch)); spins++ {
+						if spins%1000 == 999 {
+							runtime.Gosched()
+						}
+					}
+
+					switch sub.kind {
+					case vc18OpAccept:
+						h.startAccept(sub.arg)
+					case vc18OpCloseLn:
+						_ = h.lims[sub.arg].Close()
+					case vc18OpCloseConn:
+						_ = opens[sub.arg].conn.Close()
+					}
+				}()
+			}
+
+			bwg.Wait()
 		case vc18OpAddLn:
 			classes["listener-added"] = true
 			h.addListener()
